@@ -613,6 +613,7 @@ class VM:
                     return mir.get(hits[0])
             return None
         base = strip_generics(c)
+        if base.rstrip(':') in mir.fns: return mir.get(base.rstrip(':'))          # a free function named with its module path (`helpers::clamp01::<T>`)
         segs = [s.strip() for s in base.split('::') if s.strip()]
         if len(segs) == 1:
             hits = lookup(None, None, segs[0])
@@ -892,6 +893,16 @@ class VM:
         cfn._ncaps = n
         return n
 
+    def _capture_info(self, cfn):
+        info = getattr(cfn, '_capinfo', None)
+        if info is not None: return info
+        info = {}
+        for raw in cfn._lines:
+            mm = re.match(r'^\s*debug (\w+) => .*?\(\*?_1\)?\.(\d+): (.*?)\)+;', raw)
+            if mm and int(mm.group(2)) not in info: info[int(mm.group(2))] = (mm.group(1), mm.group(3).strip())
+        cfn._capinfo = info
+        return info
+
     def closure_aggregate(self, m, fid, fn, stmts, idx, st):
         """the MIR printer zips capture *names* with operands and drops operands when one variable is captured
         by several disjoint places (`out.0`, `out.1`): recover them from the assignments immediately before."""
@@ -900,6 +911,8 @@ class VM:
         cfn = self.mir.closure_of(st.b[2], fn.name)
         need = self.closure_captures(cfn)
         if need > len(ops):
+            caps = self._capture_info(cfn)          # {index: (debug name, type)} from the closure body's debug info
+            nt = lambda t: re.sub(r"\b(?:std|core|alloc)::(?:\w+::)*|'\w+ ", '', (t or '')).replace(' ', '')
             prev = []
             j = idx - 1
             while j >= 0 and len(prev) < need:
@@ -909,13 +922,27 @@ class VM:
                 break
             prev = list(reversed(prev))
             listed = [o[1].local for o in ops if o[0] in ('move', 'copy') and not o[1].proj]
-            # the listed operands must be a subsequence of the recovered temporaries, which must be consecutive locals
             it = iter(prev)
-            if len(prev) != need or len(listed) != len(ops) or not all(any(x == y for y in it) for x in listed):
-                raise Unmodelled('closure aggregate with dropped captures cannot be recovered: %s' % st.text)
-            nums = [int(x[1:]) for x in prev]
-            if nums != list(range(nums[0], nums[0] + need)): raise Unmodelled('closure capture temporaries not consecutive: %s' % st.text)
-            ops = [('move', Place(x, ())) for x in prev]
+            ok = len(prev) == need and len(listed) == len(ops) and all(any(x == y for y in it) for x in listed)
+            if ok:
+                nums = [int(x[1:]) for x in prev]
+                consecutive = nums == list(range(nums[0], nums[0] + need))
+                typed = len(caps) >= need and all(nt(fn.locals.get(prev[k])) == nt(caps[k][1]) for k in range(need))
+                ok = consecutive or typed          # either the classic shape, or every recovered temporary has exactly the type of the capture it fills
+            if ok: ops = [('move', Place(x, ())) for x in prev]
+            else:
+                # the printer listed the first len(ops) captures; the others are recovered by name where they are whole variables of the parent
+                # (`transformation`, `math`): same type -> the value, `&T` / `&mut T` of a local of type T -> a reference to it
+                vals = [self.operand(m, fid, o, fn) for o in ops]
+                for k in range(len(ops), need):
+                    if k not in caps or '__' in caps[k][0]: raise Unmodelled('closure aggregate with dropped captures cannot be recovered: %s' % st.text)
+                    name, cty = caps[k]; loc = fn.debug.get(name, '')
+                    if not re.match(r'^_\d+$', loc): raise Unmodelled('closure aggregate with dropped captures cannot be recovered (%s is not a plain local): %s' % (name, st.text))
+                    pty = fn.locals.get(loc)
+                    if nt(pty) == nt(cty): vals.append(self.read_at(m, (fid, loc), []))
+                    elif nt(cty) in ('&' + nt(pty), '&mut' + nt(pty)): vals.append(Ref((fid, loc), ()))
+                    else: raise Unmodelled('closure aggregate with dropped captures cannot be recovered (type of %s): %s' % (name, st.text))
+                return Closure(st.b[2], vals, fn.name)
         vals = [self.operand(m, fid, o, fn) for o in ops]
         if st.b[2].startswith('{coroutine@'): return Coro(st.b[2], vals, fn.name)
         return Closure(st.b[2], vals, fn.name)
